@@ -1,7 +1,7 @@
 ------------------------------- MODULE GenUni -------------------------------
 (* Evaluates one universe expression once and prints it as JSON; the harness *)
 (* substitutes the expression names through the cfg (small values only).     *)
-EXTENDS Props_C02, Props_C03, Props_C04, Props_C05, Props_C08, Props_C14, Props_C15, Props_C16, Props_EvalUni, Props_C07, Json
+EXTENDS Props_C01, Props_C02, Props_C03, Props_C04, Props_C05, Props_C08, Props_C14, Props_C15, Props_C16, Props_EvalUni, Props_C07, Json
 
 CONSTANTS UDocs, URange
 VARIABLE x
